@@ -742,6 +742,41 @@ def _check_roundtrip(prog: Program, res: Result, sec_tabs):
         params = [p for p, (var, k) in lb.items() if k == key and props_var.get(var) == sec]
         n_mgr += 1
         n_rt += 1
+        if guards:
+            # an optional key: it may be left out only in the states in which the loader's default restores the attribute,
+            # i.e. the guard tests the written attribute itself (against None / True) and the default is that value
+            absent_value = "?"
+            okg = True
+            why = ""
+            for test, pol in guards:
+                form = None
+                if pol and isinstance(test, ast.Compare) and len(test.ops) == 1 and attr_chain(test.left) == src and isinstance(test.comparators[0], ast.Constant):
+                    cv = test.comparators[0].value
+                    if isinstance(test.ops[0], ast.IsNot) and cv is None:
+                        form = "None"
+                    elif isinstance(test.ops[0], (ast.Is, ast.Eq)) and cv is True:
+                        form = "False"
+                    elif isinstance(test.ops[0], (ast.IsNot, ast.NotEq)) and cv is False:
+                        form = "False"
+                elif pol and attr_chain(test) == src:
+                    form = "False"
+                if form is None:
+                    okg = False
+                    why = f"it is written only under '{ast.unparse(test)[:70]}'{'' if pol else ' being false'}, which is not a test of {src} itself"
+                else:
+                    absent_value = form
+            dflt = None
+            for n_ in ast.walk(lfi.node):
+                if isinstance(n_, ast.Call) and isinstance(n_.func, ast.Attribute) and n_.func.attr == "get" and n_.args and isinstance(n_.args[0], ast.Constant) and n_.args[0].value == key \
+                        and props_var.get(ast.unparse(n_.func.value)) == sec:
+                    dflt = ast.unparse(n_.args[1]) if len(n_.args) > 1 else "None"
+            if okg and dflt is not None and dflt != absent_value:
+                okg = False
+                why = f"it is left out when {src} is {absent_value}, but the loader then supplies {dflt}"
+            res.ob("K5", f"[{sec}] optional key '{key}' is left out exactly when {src} has the loader's default ({dflt})", okg, prog.loc(wfi, node))
+            if not okg:
+                res.violation("K5", f"{sec}|{key}|optional-guard", prog.loc(wfi, node), WRITER,
+                              f"round trip of the optional key '{key}': {why}; in the other states the value is lost when the file is read back")
         if len(params) != 1:
             res.ob("K5", f"[{sec}] manager key '{key}' is fed to exactly one parameter of set_simulation_parameters", False, prog.loc(wfi, node))
             res.violation("K5", f"{sec}|{key}|loader-binding|{params}", prog.loc(lfi, lfi.node), WORKER,
@@ -816,6 +851,26 @@ def _check_roundtrip(prog: Program, res: Result, sec_tabs):
         res.ob("K5", f"[design] '{key}' <- {src} returns through set_design({sparam}) -> Design*({cparam})", okc and okl, prog.loc(dti, val))
         if not (okc and okl):
             res.violation("K5", f"design|{key}|{cparam}", prog.loc(dti, val), dti.qualname, f"round trip of '{key}': written from {src}; the loader feeds set_design({sparam}) from {lbd.get(sparam)}, constructors receive {cparam} wrongly" )
+    # optional keys of every to_input(): left out exactly when their own attribute is None (what the loader's .get() restores)
+    n_opt = 0
+    for fq, f_ in sorted(prog.funcs.items()):
+        if f_.name != "to_input":
+            continue
+        ks_ = KeyStoreCollector()
+        ks_.visit(f_.node)
+        for dname, key, val, guards, node in ks_.stores:
+            if not guards:
+                continue
+            n_opt += 1
+            src = attr_chain(val)
+            okg = src is not None and all(
+                pol and isinstance(t_, ast.Compare) and len(t_.ops) == 1 and isinstance(t_.ops[0], ast.IsNot) and attr_chain(t_.left) == src
+                and isinstance(t_.comparators[0], ast.Constant) and t_.comparators[0].value is None for t_, pol in guards)
+            res.ob("K5", f"{f_.cls.split('.')[-1] if f_.cls else ''}.to_input: optional key '{key}' is left out exactly when {src} is None", okg, prog.loc(f_, node))
+            if not okg:
+                res.violation("K5", f"to_input|{f_.qualname}|{key}|optional-guard", prog.loc(f_, node), f_.qualname,
+                              f"the optional key '{key}' is written under {[ast.unparse(t_)[:50] for t_, _ in guards]}, which is not 'its own attribute is not None': in other states the value is lost on the way through the file")
+    res.count("optional_to_input_keys", n_opt)
     res.count("roundtrip_keys", n_rt)
     res.floor("roundtrip_keys", 60)
 
@@ -922,6 +977,12 @@ def _check_enums(prog: Program, res: Result, wfi, lfi):
 
 
 VARIANTS = [
+    Variant("continue_if_design_unmet written only when max_boreholes is set (seeded C17)", "break",
+            [(MGR, """        if self._simulation_parameters.continue_if_design_unmet is True:
+            d_des['continue_if_design_unmet'] = self._simulation_parameters.continue_if_design_unmet""", """            if self._simulation_parameters.continue_if_design_unmet is True:
+                d_des['continue_if_design_unmet'] = self._simulation_parameters.continue_if_design_unmet""")], "K5"),
+    Variant("continue_if_design_unmet guarded by plain truthiness", "benign",
+            [(MGR, "        if self._simulation_parameters.continue_if_design_unmet is True:", "        if self._simulation_parameters.continue_if_design_unmet:")]),
     Variant("rectangle to_input drops b_min", "break", [(GEO, "            'b_min': self.b_min,\n            'b_max': self.b_max_x,", "            'b_max': self.b_max_x,")], "K1"),
     Variant("loader reads constraint_props['bmin']", "break",
             [(MGR, "            b_min=constraint_props[\"b_min\"],\n            b_max=constraint_props[\"b_max\"],", "            b_min=constraint_props[\"bmin\"],\n            b_max=constraint_props[\"b_max\"],")], "K3"),
